@@ -18,6 +18,7 @@ _np = S._np
 ndarray, MaskedArray, masked, NOMASK = S.ndarray, S.MaskedArray, S.masked, S.NOMASK
 _new = ndarray._new
 R = z3.RealVal
+_core_array = S.array          # captured before apply() rebinds the public names
 
 
 class _ScalarType(object):
@@ -54,7 +55,7 @@ def _is_scalar(x):
 def _as_nd(x, kind=None):
     if isinstance(x, ndarray):
         return x
-    return S.array(x, dtype=kind)
+    return _core_array(x, dtype=kind)
 
 
 def _cells_mask(a):
@@ -344,7 +345,7 @@ def np_asarray(x, dtype=None, order=None):
         return d if (k is None or k == d.kind) else d.astype(k)
     if isinstance(x, ndarray):
         return x if (k is None or k == x.kind) else x.astype(k)
-    return S.array(x, dtype=dtype)
+    return _core_array(x, dtype=dtype)
 
 
 def np_array(obj, dtype=None, copy=True, **kw):
@@ -352,7 +353,7 @@ def np_array(obj, dtype=None, copy=True, **kw):
         obj = obj.data
     if isinstance(obj, ndarray) and not copy:
         return np_asarray(obj, dtype)
-    return S.array(obj, dtype=dtype)
+    return _core_array(obj, dtype=dtype)
 
 
 def _shape_tuple(shape):
@@ -557,10 +558,14 @@ def ma_mask_or(m1, m2, copy=False, shrink=True):
     if a is None and b is None:
         return NOMASK
     if a is None:
-        return _new(b, shape, 'b')
-    if b is None:
-        return _new(a, shape, 'b')
-    return _new([S._simp(z3.Or(x, y)) for x, y in zip(a, b)], shape, 'b')
+        r = _new(b, shape, 'b')
+    elif b is None:
+        r = _new(a, shape, 'b')
+    else:
+        r = _new([S._simp(z3.Or(x, y)) for x, y in zip(a, b)], shape, 'b')
+    if shrink and not bool(r.any()):
+        return NOMASK
+    return r
 
 
 def ma_masked_where(condition, a, copy=True):
